@@ -242,7 +242,7 @@ func ruleHeaderAtOpen(r *Report) {
 	for _, e := range append(tE, fE...) {
 		leadsToFlush := false
 		for _, f := range F {
-			if e.To == f.Block || reachFrom(e.To, nil)[f.Block] && e.To.Dominates(f.Block) {
+			if e.To == f.Block || reachFrom(e.To, nil)[f.Block] && dominates(e.To, f.Block) {
 				leadsToFlush = true
 			}
 		}
@@ -680,7 +680,7 @@ func rulePartialTable(r *Report) {
 		// non-os call (i.e. a bool helper or a test on os.Stat's result) and one of whose edges skips the call
 		guarded := false
 		for _, b := range liveBlocks(fn) {
-			if !b.Dominates(s.Block) || b == s.Block || len(b.Instrs) == 0 {
+			if !dominates(b, s.Block) || b == s.Block || len(b.Instrs) == 0 {
 				continue
 			}
 			iff, ok := b.Instrs[len(b.Instrs)-1].(*ssa.If)
@@ -689,7 +689,7 @@ func rulePartialTable(r *Report) {
 			}
 			skips := false
 			for _, su := range b.Succs {
-				if !reachFrom(su, map[Edge]bool{})[s.Block] || !su.Dominates(s.Block) && su != s.Block {
+				if !reachFrom(su, map[Edge]bool{})[s.Block] || !dominates(su, s.Block) && su != s.Block {
 					skips = true
 				}
 			}
@@ -1006,9 +1006,9 @@ func ruleWalDirAfterFlush(r *Report) {
 			if _, ok := b.Instrs[len(b.Instrs)-1].(*ssa.If); !ok {
 				continue
 			}
-			if b.Dominates(a.Block) {
-				t0 := b.Succs[0] == a.Block || b.Succs[0].Dominates(a.Block)
-				t1 := b.Succs[1] == a.Block || b.Succs[1].Dominates(a.Block)
+			if dominates(b, a.Block) {
+				t0 := b.Succs[0] == a.Block || dominates(b.Succs[0], a.Block)
+				t1 := b.Succs[1] == a.Block || dominates(b.Succs[1], a.Block)
 				// only the nearest such If whose condition is a comparison of a counter with a constant
 				iff := b.Instrs[len(b.Instrs)-1].(*ssa.If)
 				if bo, ok := iff.Cond.(*ssa.BinOp); ok {
@@ -1492,7 +1492,7 @@ func ruleFinishOnlyVerified(r *Report) {
 			classified := false
 			for _, d := range dels {
 				for _, b := range liveBlocks(fn) {
-					if !b.Dominates(d.Block) {
+					if !dominates(b, d.Block) {
 						continue
 					}
 					cnd, _, _, _, _, ok := effCond(b)
@@ -1704,7 +1704,7 @@ func ruleWalReclaim(r *Report) {
 			}()
 			ordered := false
 			for _, b := range liveBlocks(f) {
-				if len(b.Instrs) == 0 || !b.Dominates(x.Block) {
+				if len(b.Instrs) == 0 || !dominates(b, x.Block) {
 					continue
 				}
 				if iff, ok := b.Instrs[len(b.Instrs)-1].(*ssa.If); ok {
@@ -2095,15 +2095,15 @@ func ruleFinishRenameLast(r *Report) {
 		removed := map[Edge]bool{}
 		var hdr *ssa.BasicBlock
 		for _, b := range liveBlocks(fn) {
-			if b.Dominates(rn.Block) && b != rn.Block && reachFrom(rn.Block, nil)[b] {
-				if hdr == nil || b.Dominates(hdr) {
+			if dominates(b, rn.Block) && b != rn.Block && reachFrom(rn.Block, nil)[b] {
+				if hdr == nil || dominates(b, hdr) {
 					hdr = b
 				}
 			}
 		}
 		if hdr != nil {
 			for _, pr := range hdr.Preds {
-				if reachFrom(hdr, nil)[pr] && hdr.Dominates(pr) {
+				if reachFrom(hdr, nil)[pr] && dominates(hdr, pr) {
 					removed[Edge{pr, hdr}] = true
 				}
 			}
@@ -2349,7 +2349,7 @@ func ruleReplayCountsEveryMutation(r *Report) {
 			sides = []ssa.Value{cnd} // a flag instead of a count
 		}
 		for _, f := range flushes {
-			if !b.Dominates(f.Block) {
+			if !dominates(b, f.Block) {
 				continue
 			}
 			for _, side := range sides {
@@ -2392,7 +2392,7 @@ func ruleReplayCountsEveryMutation(r *Report) {
 			n++
 			dom := false
 			for _, inc := range incs {
-				if inc.Block == s.Block && precedes(inc, s) || inc.Block != s.Block && inc.Block.Dominates(s.Block) {
+				if inc.Block == s.Block && precedes(inc, s) || inc.Block != s.Block && dominates(inc.Block, s.Block) {
 					dom = true
 				}
 			}
